@@ -316,11 +316,11 @@ func (c01Oracle) OnReq(c *tableCtx, op *Op, o *Obs) *Violation {
 		return mk("route-live", "dead-pattern", "reported pattern is not a live route")
 	}
 	kind, hid := c.expectHandler(o.Pattern, q.Method)
-	if o.Kind != kind || o.HID != hid {
+	if o.Kind != kind || (kind == KRoute && o.HID != hid) {
 		return mk("handler-identity", "wrong-handler", fmt.Sprintf("model: %s h%d", kind, hid))
 	}
-	if (o.Kind == KOptions || o.Kind == K405) && o.Rec != nil {
-		// the component built for this pattern
+	if (o.Kind == KOptions || o.Kind == K405) && o.Rec.Comp.Node != nil && o.Rec.Comp.Node.Pattern() != o.Pattern {
+		return mk("handler-identity", "foreign-auto-handler", "the OPTIONS/405 component that ran was built for pattern "+o.Rec.Comp.Node.Pattern())
 	}
 	// parameters: exactly the capturing names
 	names := mr.P.CapturingNames()
@@ -380,7 +380,7 @@ func (c03Oracle) AfterAdmin(c *tableCtx, op *Op, pan any, applied bool) *Violati
 	removal := op.K == "remove" || op.K == "clean" || op.K == "pclean" || op.K == "rclean"
 	newLast := map[string]string{}
 	probeSet := func(p *Pattern, live bool) *Violation {
-		path, _ := FixedWitness(p)
+		path, capt := FixedWitness(p)
 		adm := res.Resolve(path)
 		admPat := map[string]Outcome{}
 		for _, a := range adm {
@@ -399,28 +399,33 @@ func (c03Oracle) AfterAdmin(c *tableCtx, op *Op, pan any, applied bool) *Violati
 			if c.m.Trace && meth == "TRACE" {
 				continue // C18
 			}
-			if len(adm) == 0 {
-				if o.Kind != K404 {
-					return mk("removed-gone", "served-after-removal", fmt.Sprintf("%s -> %s, but no live route matches", key, o.Key()))
+			if !live {
+				// witness of a pattern that is no longer live: its values need not be
+				// simple for the remaining routes (removal leaves split nodes split),
+				// so only "a dead pair is never served" and handler identity are demanded.
+				if o.Kind == K404 {
+					continue
 				}
-				continue
-			}
-			if o.Kind == K404 {
-				return mk("live-reachable", "live-unreachable", fmt.Sprintf("%s -> 404, live candidates %v", key, outcomeKeys(adm)))
-			}
-			a, ok := admPat[o.Pattern]
-			if !ok {
-				return mk("winner-priority", "wrong-winner", fmt.Sprintf("%s -> %s, admissible %v", key, o.Key(), outcomeKeys(adm)))
+				if c.m.Routes[o.Pattern] == nil {
+					return mk("removed-gone", "served-after-removal", fmt.Sprintf("%s -> %s, but that pattern is not live", key, o.Key()))
+				}
+			} else {
+				if o.Kind == K404 {
+					return mk("live-reachable", "live-unreachable", fmt.Sprintf("%s -> 404, live candidates %v", key, outcomeKeys(adm)))
+				}
+				if _, ok := admPat[o.Pattern]; !ok && o.Pattern != p.Raw {
+					return mk("winner-priority", "wrong-winner", fmt.Sprintf("%s -> %s, admissible %v", key, o.Key(), outcomeKeys(adm)))
+				}
 			}
 			kind, hid := c.expectHandler(o.Pattern, meth)
-			if o.Kind != kind || o.HID != hid {
+			if o.Kind != kind || (kind == KRoute && o.HID != hid) {
 				return mk("handler", "wrong-handler", fmt.Sprintf("%s -> %s, model %s h%d", key, o.Key(), kind, hid))
 			}
-			if fmtParams(a.Params) != fmtParams(o.Params) && live && a.Pattern == p.Raw {
+			if live && o.Pattern == p.Raw {
 				// own simple values must come back (left-overs are C01's clause; only own names compared)
-				for k, v := range a.Params {
+				for k, v := range capt {
 					if o.Params[k] != v {
-						return mk("witness-params", "wrong-params", fmt.Sprintf("%s -> %s, expected %s", key, o.Key(), fmtParams(a.Params)))
+						return mk("witness-params", "wrong-params", fmt.Sprintf("%s -> %s, expected %s", key, o.Key(), fmtParams(capt)))
 					}
 				}
 			}
